@@ -109,6 +109,12 @@ def to_str(e, pow_sym='**', sp=' ', paren=False, numstyle=0, rnd=None, top=True)
         if e[1] == 'past' and PAST_STYLE[0] == 't-' and SPLIT_DELAY_STYLE[0] and e[3][0] == 'num' and float(e[3][1]) > 0:
             # a delay written as a difference chain, x(t-0.004-0.003): x at time t-(0.004+0.003)
             d_ = float(e[3][1])
+            if (int(round(d_ * 1e4)) + int(round(d_ * 1e3))) % 2:
+                # x(t-a+b): x at time t-(a-b)
+                a_ = float(f"{1.4 * d_:.3g}")
+                b_ = float(f"{a_ - d_:.12g}")
+                if a_ > 0 and b_ > 0:
+                    return f"{e[2][1]}(t-{a_!r}+{b_!r})"
             a_ = float(f"{0.6 * d_:.3g}")
             b_ = float(f"{d_ - a_:.12g}")
             if a_ > 0 and b_ > 0:
